@@ -30,6 +30,9 @@ class Cache:
 
     backend: type[TableImpl]
 
+    # whether a `summarize` was applied in the current SELECT (also without grouping)
+    is_summarized: bool = False
+
     def __repr__(self) -> str:
         return (
             "Cache(\n"
@@ -160,6 +163,7 @@ class Cache:
             res.uuid_to_name = {uid: name for name, uid in res.name_to_uuid.items()}
             res.group_by = res.group_by | set(res.partition_by)
             res.partition_by = []
+            res.is_summarized = True
 
         elif isinstance(node, verbs.SliceHead):
             res.limit = node.n
@@ -174,6 +178,7 @@ class Cache:
             res.derived_from = self.derived_from | right_cache.derived_from
             res.limit = 0
             res.group_by = set()
+            res.is_summarized = False
 
         elif isinstance(node, verbs.Union):
             assert right_cache is not None
@@ -189,6 +194,7 @@ class Cache:
             res.derived_from = self.derived_from | right_cache.derived_from
             res.limit = 0
             res.group_by = set()
+            res.is_summarized = False
 
         elif isinstance(node, verbs.SubqueryMarker):
             res.cols = {
@@ -204,6 +210,7 @@ class Cache:
             res.limit = 0
             res.group_by = set()
             res.is_filtered = False
+            res.is_summarized = False
 
         assert len(res.name_to_uuid) == len(res.uuid_to_name)
         res.derived_from = res.derived_from | {node}
@@ -260,7 +267,7 @@ class Cache:
             return "`filter` after a window function was computed in `mutate`"
 
         if isinstance(node, verbs.Summarize):
-            if self.group_by and self.group_by != set(self.partition_by):
+            if self.is_summarized or (self.group_by and self.group_by != set(self.partition_by)):
                 return "nested summarize"
             if any(
                 (col.ftype(agg_is_window=False) in (Ftype.WINDOW, Ftype.AGGREGATE))
@@ -272,7 +279,7 @@ class Cache:
                 return "window function among grouping columns"
 
         if isinstance(node, verbs.Join):
-            if self.group_by:
+            if self.group_by or self.is_summarized:
                 return "join with a grouped table"
 
             if (node.how == "full" or (node.child not in self.derived_from and node.how == "left")) and any(
@@ -294,7 +301,7 @@ class Cache:
                 return "full join with a filtered table"
 
         if isinstance(node, verbs.Union):
-            if self.group_by:
+            if self.group_by or self.is_summarized:
                 return "union with a grouped table"
 
             if any(self.cols[uid].ftype() == Ftype.WINDOW for uid in self.uuid_to_name.keys()):
